@@ -351,6 +351,17 @@ Theorem C20_arithmetic_laws : forall (a b c : list R) s t, List.length a = List.
 Proof. exact arithmetic_laws. Qed.
 Print Assumptions C20_arithmetic_laws.
 
+(* boundary case, real particles already centred (centre of mass exactly zero; no theorem above excludes it): move_to_com leaves the
+   real particles in place, yet the first-order variations still shift by the variation of the centre of mass *)
+Theorem C20_move_to_com_centred_boundary :
+  (forall ms qs, ms <> [] -> List.length ms = List.length qs -> pos_prefix 0 ms -> MQ ms qs = 0 -> move_to_com RNum ms qs = qs) /\
+  (forall l, let M := Msum (l_m l) in M <> 0 -> MQ (l_m l) (l_q l) = 0 ->
+     var1_shift RNum M l = (MQ (l_m l) (l_dq l) + MQ (l_dm l) (l_q l)) / M) /\
+  (let l := [(1, 1, 0, 1); (1, -1, 0, 0)] in
+   MQ (l_m l) (l_q l) = 0 /\ move_to_com RNum (l_m l) (l_q l) = l_q l /\ var1_shift RNum 2 l = 1 / 2 /\ move_to_com_var1 RNum 2 l = [1 / 2; - (1 / 2)]).
+Proof. exact (conj centred_real_particles_stay (conj centred_system_boundary centred_binary_variation_moves)). Qed.
+Print Assumptions C20_move_to_com_centred_boundary.
+
 (* the second-order variational correction of move_to_com IS the eps1*eps2 part of move_to_com run on nested dual numbers
    (m + e1 ma + e2 mb + e1e2 m2, q + e1 qa + e2 qb + e1e2 q2): the shift, and every shifted second-order particle *)
 Theorem C20_var2_is_mixed_dual_part : forall l : list (e2 (T:=R)), l <> [] -> pos_prefix 0 (map em l) ->
